@@ -65,7 +65,7 @@ fn bs(i: usize, with_txs: bool, parent: Option<u16>) -> BlockSpec {
             vec![]
         },
         bad_tx: None,
-        corrupt: None,
+        corrupt: None, back: None,
     }
 }
 
